@@ -163,6 +163,10 @@ def gen_model(rng, tag: str) -> tuple[dict, str, list[str]]:  # noqa: ANN001
                 lit = rng.choice(["5e9", "1e12", "3000000000.0", "4294967296.0", "1e-12", "2.5e-7", "6.022e23", "123456789"])
                 e_ = rng.choice([f"{lit} * ({e_})", f"({e_}) * {lit}", f"({e_}) / {lit}"])
                 eg.feats.add("literal_of_unusual_magnitude")
+            if rate and params and rng.random() < 0.04:
+                # a two-argument function of the exporter's one-argument table as a term of the rate law (refused, or right)
+                e_ = f"math.remainder({params[0]}, {rng.choice(['2.0', '1.5', '0.75'])}) + ({e_})"
+                eg.feats.add("other_table_names:math.remainder")
             body = [f"    return {e_}"]
         elif kind == "nested_call":
             body = [f"    return helper({params[0]}) + {eg.expr(params, 1)}"]
